@@ -14,6 +14,13 @@
 // expected signature streams, DigestMsiTar(MsiToTar(f)) == DigestMSI(f)
 // (extended and not), both equal to a harness reference imprint, and the
 // imprint unchanged by signing.
+//
+// Development knobs (never needed by ./check): C18_KNOWN_EXTRA=key1,key2 treats
+// those violation keys as known for this run only (printed as DEV-KNOWN, listed
+// in the evidence under dev_known_extra_hits); C18_ONLY=<substring of a file id>
+// restricts the family; C18_DEPTH=<n> overrides the history depth;
+// `./check C18 --replay <replays/C18/x.json>` re-executes exactly one recorded
+// case (C18_DUMP=<path> also writes the input file there).
 package main
 
 import (
@@ -95,6 +102,8 @@ type fileCase struct {
 	baseDig  [2][]byte // relic DigestMSI at depth 0: [non-extended, extended]
 	maxDepth int
 	skipRef  bool
+	class    string // input class that names a finding more narrowly ("" = none)
+	unusable bool   // relic cannot even open it: reported once, no histories
 }
 
 type op struct {
@@ -118,7 +127,10 @@ type model struct {
 
 var insertSizes = []int{1000, 4095, 4096, 9000}
 
-const noExSize = 2000
+// without Ex: one size below the cutoff (mini stream) and one above (the only
+// operation that never touches the mini stream)
+var noExSizes = []int{2000, 5000}
+
 const biggerBy = 3097 // 1000 -> 4097 crosses the mini cutoff upwards
 
 func enabled(m model) []op {
@@ -126,7 +138,9 @@ func enabled(m model) []op {
 	for _, s := range insertSizes {
 		out = append(out, op{"ins-ex", s})
 	}
-	out = append(out, op{"ins-noex", noExSize})
+	for _, sz := range noExSizes {
+		out = append(out, op{"ins-noex", sz})
+	}
 	if m.sigSize > 0 {
 		out = append(out, op{Kind: "bigger"})
 	}
@@ -188,9 +202,11 @@ func panicSite() string {
 
 var digitsRe = regexp.MustCompile(`[0-9]+`)
 var pathRe = regexp.MustCompile(`/[^ :]*`)
+var quotedRe = regexp.MustCompile(`"(\\.|[^"\\])*"`)
 
 func errClass(err error) string {
 	s := err.Error()
+	s = quotedRe.ReplaceAllString(s, "Q") // stream names are not part of the class
 	s = pathRe.ReplaceAllString(s, "PATH")
 	s = digitsRe.ReplaceAllString(s, "N")
 	s = strings.Map(func(r rune) rune {
@@ -415,7 +431,11 @@ func checkState(fc *fileCase, data []byte, p *cfbgen.Parsed, expectSig, expectEx
 	}
 	for i, name := range []string{"non-extended", "extended"} {
 		if !bytes.Equal(rv.dig[i], rv.tarDig[i]) {
-			add("msitar-digest-differs:"+name, "DigestMsiTar(MsiToTar(f)) = %x, DigestMSI(f) = %x", rv.tarDig[i], rv.dig[i])
+			cls := name
+			if fc.class != "" {
+				cls = fc.class
+			}
+			add("msitar-digest-differs:"+cls, "DigestMsiTar(MsiToTar(f)) = %x, DigestMSI(f) = %x", rv.tarDig[i], rv.dig[i])
 		}
 		if fc.baseDig[i] != nil && !bytes.Equal(rv.dig[i], fc.baseDig[i]) {
 			add("imprint-changed-by-signing:"+name, "DigestMSI before %x, after %x", fc.baseDig[i], rv.dig[i])
@@ -490,8 +510,8 @@ func (w *worker) explore(fc *fileCase) {
 		m0.sigSize = int(e.Size)
 	}
 	m0.hasEx = fc.base.ByPath[cfbgen.NameSigEx] != nil
-	var rec func(data []byte, m model, hist []op)
-	rec = func(data []byte, m model, hist []op) {
+	var rec func(data []byte, m model, hist []op, noMini bool)
+	rec = func(data []byte, m model, hist []op, noMini bool) {
 		atomic.AddInt64(&nStates, 1)
 		if len(hist) >= fc.maxDepth || timeUp() {
 			return
@@ -527,6 +547,9 @@ func (w *worker) explore(fc *fileCase) {
 				if pe, ok := err.(*panicErr); ok {
 					key = "insert-panics:" + pe.site
 				}
+				if noMini {
+					key += ":input-without-mini-stream"
+				}
 				run.Outcome("failed:" + key)
 				report(finding{key, fmt.Sprintf("%s: %v", where, err), order, specReplay(fc, h2, nil)})
 				continue
@@ -552,10 +575,15 @@ func (w *worker) explore(fc *fileCase) {
 				run.Outcome("violates:" + is.key)
 				report(finding{is.key, where + ": " + is.desc, order, specReplay(fc, h2, nil)})
 			}
-			rec(after, model{sigSize: size, hasEx: ex, fresh: true}, h2)
+			rec(after, model{sigSize: size, hasEx: ex, fresh: true}, h2, hasNoMini(p))
 		}
 	}
-	rec(fc.data, m0, nil)
+	rec(fc.data, m0, nil, hasNoMini(fc.base))
+}
+
+// hasNoMini: the state has no mini stream (root entry: no start sector, size 0).
+func hasNoMini(p *cfbgen.Parsed) bool {
+	return len(p.Entries) > 0 && p.Entries[0].Size == 0
 }
 
 // pipeline drives relicx.SignStandalone repeatedly.
@@ -564,8 +592,8 @@ func (w *worker) pipeline(cfgKey string, fc *fileCase, inPlaceFirst bool, maxRep
 	in := filepath.Join(w.dir, "p.msi")
 	outp := filepath.Join(w.dir, "q.msi")
 	seq := 0
-	var rec func(data []byte, hist []string)
-	rec = func(data []byte, hist []string) {
+	var rec func(data []byte, hist []string, noMini bool)
+	rec = func(data []byte, hist []string, noMini bool) {
 		atomic.AddInt64(&nStates, 1)
 		if len(hist) >= maxRepeat || timeUp() {
 			return
@@ -604,9 +632,13 @@ func (w *worker) pipeline(cfgKey string, fc *fileCase, inPlaceFirst bool, maxRep
 					Flags: url.Values{"no-extended-sig": {fmt.Sprint(noext)}}, In: in, Out: dest})
 			}()
 			if err != nil {
-				key := "pipeline-sign-fails:" + errClass(err)
+				// same key space as the direct drive: the Apply step is the same code
+				key := "insert-fails:" + errClass(err)
 				if pe, ok := err.(*panicErr); ok {
-					key = "pipeline-sign-panics:" + pe.site
+					key = "insert-panics:" + pe.site
+				}
+				if noMini {
+					key += ":input-without-mini-stream"
 				}
 				run.Outcome("failed:" + key)
 				report(finding{key, fmt.Sprintf("%s: %v", where, err), order, replay})
@@ -631,7 +663,11 @@ func (w *worker) pipeline(cfgKey string, fc *fileCase, inPlaceFirst bool, maxRep
 			atomic.AddInt64(&nDigestChecks, 2)
 			// relic's own verifier, integrity and chain
 			if _, verr := relicx.Verify(dest, relicx.TrustOpts()); verr != nil {
-				issues = append(issues, issue{"relic-verify-rejects-own-output", verr.Error()})
+				k := "relic-verify-rejects-own-output"
+				if fc.class != "" {
+					k += ":" + fc.class
+				}
+				issues = append(issues, issue{k, verr.Error()})
 			}
 			// the Ex stream must be the pre-hash the reference computes
 			if !noext && !fc.skipRef {
@@ -656,10 +692,10 @@ func (w *worker) pipeline(cfgKey string, fc *fileCase, inPlaceFirst bool, maxRep
 				run.Outcome("pipeline-violates:" + is.key)
 				report(finding{is.key, where + ": " + is.desc, order, replay})
 			}
-			rec(after, h2)
+			rec(after, h2, hasNoMini(p))
 		}
 	}
-	rec(fc.data, nil)
+	rec(fc.data, nil, hasNoMini(fc.base))
 }
 
 var pipeCfg = relicx.BaseConfig("file")
@@ -693,6 +729,15 @@ func prepare(fc *fileCase) {
 	fc.baseKeys = map[string]bool{}
 	for _, k := range fc.base.Keys() {
 		fc.baseKeys[k] = true
+	}
+	for path, e := range fc.base.ByPath {
+		if strings.Contains(path, "/") && (e.Name == cfbgen.NameSig || e.Name == cfbgen.NameSigEx) {
+			fc.class = "nested-stream-named-like-signature"
+			fc.skipRef = true
+		}
+	}
+	if len(fc.base.Entries) > 0 && fc.base.Entries[0].Child == cfbgen.NoStream {
+		fc.class = "empty-root-storage"
 	}
 }
 
@@ -798,8 +843,7 @@ func main() {
 	}
 	files := make([]*fileCase, len(specs))
 	for i := range specs {
-		files[i] = &fileCase{idx: i, id: specs[i].ID(), spec: &specs[i], maxDepth: depth,
-			skipRef: specs[i].Family == "nested-signame"}
+		files[i] = &fileCase{idx: i, id: specs[i].ID(), spec: &specs[i], maxDepth: depth}
 	}
 	nw := runtime.NumCPU()
 	vlib.Parallel(len(files), nw, func(i int) {
@@ -814,7 +858,11 @@ func main() {
 		}
 		rv := readWithRelic(fc.data)
 		if rv.err != nil {
-			report(finding{"relic-reader-fails-on-generated:" + errClass(rv.err), fc.id + ": " + rv.err.Error(), [3]int{fc.idx, 0, 0}, specReplay(fc, nil, nil)})
+			key := cannotOpenKey(fc, rv.err)
+			fc.unusable = true
+			run.Eval(1)
+			run.Outcome("failed:" + key)
+			report(finding{key, fc.id + ": " + rv.err.Error(), [3]int{fc.idx, 0, 0}, specReplay(fc, nil, nil)})
 			return
 		}
 		fc.baseDig = rv.dig
@@ -859,7 +907,9 @@ func main() {
 	vlib.Parallel(len(order), nw, func(i int) {
 		w := <-wch
 		defer func() { wch <- w }()
-		w.explore(files[order[i]])
+		if !files[order[i]].unusable {
+			w.explore(files[order[i]])
+		}
 	})
 	histStates, histTrans := atomic.LoadInt64(&nStates), atomic.LoadInt64(&nTransitions)
 
@@ -873,6 +923,9 @@ func main() {
 	pipeFams := map[string]bool{"layout": true, "storage": true, "names": true, "nested-signame": true}
 	nPipeFiles := 0
 	for _, fc := range files {
+		if fc.unusable {
+			continue
+		}
 		if pipeFams[fc.spec.Family] || (fc.spec.Family == "fatfull" && fc.spec.Version == 3) || (thorough && fc.spec.Family == "dircount") {
 			nPipeFiles++
 			pjobs = append(pjobs, pjob{fc, "rsaA", false})
@@ -922,15 +975,15 @@ func main() {
 	run.Set("digest_equalities_checked", atomic.LoadInt64(&nDigestChecks))
 	run.Set("fixture_dummy_msi_preexisting_validator_keys", dummy.baseKeysList())
 	run.Set("bounds", map[string]any{
-		"sector_sizes":         []int{512, 4096},
-		"stream_sizes":         cfbgen.Sizes,
-		"sizes_family":         map[string]any{"ordered_tuples_up_to": 2, "multisets_up_to": map[bool]int{false: 3, true: 4}[thorough]},
-		"history_depth":        depth,
+		"sector_sizes":                  []int{512, 4096},
+		"stream_sizes":                  cfbgen.Sizes,
+		"sizes_family":                  map[string]any{"ordered_tuples_up_to": 2, "multisets_up_to": map[bool]int{false: 3, true: 4}[thorough]},
+		"history_depth":                 depth,
 		"history_depth_files_over_1MiB": bigDepth,
-		"ops":                  []string{"ins-ex(1000)", "ins-ex(4095)", "ins-ex(4096)", "ins-ex(9000)", "ins-noex(2000)", "bigger(+3097, keeps Ex state)", "smaller(/2, keeps Ex state)"},
-		"pipeline_repeat":      maxRepeat,
-		"pipeline_flag_values": []string{"no-extended-sig=false", "no-extended-sig=true"},
-		"pipeline_keys":        pipeKeys,
+		"ops":                           []string{"ins-ex(1000)", "ins-ex(4095)", "ins-ex(4096)", "ins-ex(9000)", "ins-noex(2000)", "ins-noex(5000)", "bigger(+3097, keeps Ex state)", "smaller(/2, keeps Ex state)"},
+		"pipeline_repeat":               maxRepeat,
+		"pipeline_flag_values":          []string{"no-extended-sig=false", "no-extended-sig=true"},
+		"pipeline_keys":                 pipeKeys,
 	})
 	run.Rule("files: union of the sub-families listed under 'families' (each a full product of its own stated dimensions, see gen/cfbgen/family.go), NOT the product of all dimensions; " +
 		"state = (file, history of operations) reached by running the real InsertMSISignature+Close on a copy of the parent state's bytes (the state IS the file: relic keeps nothing else between operations); " +
@@ -973,8 +1026,19 @@ func main() {
 	run.Finish()
 }
 
+func cannotOpenKey(fc *fileCase, err error) string {
+	key := "relic-cannot-open-valid-file:" + errClass(err)
+	if pe, ok := err.(*panicErr); ok {
+		key = "relic-cannot-open-valid-file:panic:" + pe.site
+	}
+	if fc.class != "" {
+		key += ":" + fc.class
+	}
+	return key
+}
+
 func (fc *fileCase) baseKeysList() []string {
-	var out []string
+	out := []string{}
 	for k := range fc.baseKeys {
 		out = append(out, k)
 	}
@@ -1007,16 +1071,18 @@ func replay(path string) {
 	prepare(fc)
 	if rv := readWithRelic(fc.data); rv.err == nil {
 		fc.baseDig = rv.dig
-	}
-	if fc.spec != nil && fc.spec.Family == "nested-signame" {
-		fc.skipRef = true
+	} else {
+		fc.unusable = true
+		report(finding{Key: cannotOpenKey(fc, rv.err), Desc: rv.err.Error()})
 	}
 	dir, _ := os.MkdirTemp("", "c18-replay-")
 	defer os.RemoveAll(dir)
 	fmt.Printf("replaying %s on %s (%d bytes; input problems %v)\n", doc.Key, fc.id, len(fc.data), fc.base.Keys())
 	deadline = time.Now().Add(time.Hour)
 	w := &worker{dir: dir, toks: map[string]token.Token{}}
-	if doc.Replay.Pipeline {
+	if fc.unusable {
+		// nothing further can run on it
+	} else if doc.Replay.Pipeline {
 		var flags []string
 		json.Unmarshal(doc.Replay.History, &flags)
 		tok, err := relicx.OpenTokenByKey(pipeCfg, doc.Replay.Key)
